@@ -158,6 +158,67 @@ def op_readpyall(pol, enc, hdr, modi, d, comment, text, bytes_txt):
     return baseline
 
 
+def dec_cell(t):
+    return None if t == 'N' else dec_str(t)
+
+
+def dec_cell_table(t):
+    if t == '~':
+        return []
+    return [([] if r == '!' else [dec_cell(x) for x in r.split(',')]) for r in t.split(';')]
+
+
+def do_write(pol, enc, d, linesep, hdr, table):
+    """returns (result line, written text or None)"""
+    if enc == 'none':
+        stream = io.StringIO(newline='')
+        encoding = None
+    else:
+        stream = io.BytesIO()
+        encoding = enc
+    try:
+        w = rbql_csv.CSVWriter(stream, False, encoding, d, pol, line_separator=linesep)
+        w.set_header(hdr)
+        for rec in table:
+            w.write(rec[:])
+        w.finish()
+    except rbql_engine.RbqlIOHandlingError as e:
+        msg = str(e)
+        if 'Monocolumn' in msg:
+            return 'err mono', None
+        m = re.search(r'Inconsistent number of columns in output header and the current record: (\d+) != (\d+)', msg)
+        if m:
+            return 'err width %s %s' % (m.group(1), m.group(2)), None
+        return 'err io ' + enc_str(msg), None
+    raw = stream.getvalue()
+    text = raw if enc == 'none' else raw.decode(enc)
+    ws = w.get_warnings()
+    none_flag = any('None values' in x for x in ws)
+    delim_flag = any('contain separator' in x for x in ws)
+    other = [x for x in ws if 'None values' not in x and 'contain separator' not in x]
+    res = 'ok %s none=%s delim=%s' % (enc_str(text), enc_bool(none_flag), enc_bool(delim_flag))
+    if other:
+        res += ' other=' + enc_str('|'.join(other))
+    return res, raw
+
+
+def op_write(pol, js, d, linesep, hdr, table):
+    header = None if hdr == 'N' else dec_list(hdr[1:])
+    return do_write(pol, 'none', dec_str(d), dec_str(linesep), header, dec_cell_table(table))[0]
+
+
+def op_roundtrip(pol, js, enc, d, linesep, table):
+    res, raw = do_write(pol, enc, dec_str(d), dec_str(linesep), None, dec_cell_table(table))
+    if raw is None:
+        return res
+    if enc == 'none':
+        stream, encoding = make_stream('none', [raw] if raw else [])
+    else:
+        stream, encoding = make_stream(enc, [''.join(chr(x) for x in raw)] if raw else [])
+    rd = read_result(stream, encoding, pol, '0', 'n', 1024, dec_str(d), None)
+    return res + ' | ' + rd
+
+
 def op_readboth(pol, enc, hdr, modi, d, comment, text):
     t = dec_str(text)
     data = t.encode('utf-8' if enc == 'utf-8' else 'latin-1')
@@ -165,7 +226,7 @@ def op_readboth(pol, enc, hdr, modi, d, comment, text):
     return read_result(stream, encoding, pol, hdr, modi, 1024, dec_str(d), None if comment == '~' else dec_str(comment))
 
 
-OPS = {'readboth': op_readboth, 'split': op_split, 'quote': op_quote, 'unquote': op_unquote, 'readpy': op_readpy, 'readpyall': op_readpyall}
+OPS = {'readboth': op_readboth, 'write': op_write, 'roundtrip': op_roundtrip, 'split': op_split, 'quote': op_quote, 'unquote': op_unquote, 'readpy': op_readpy, 'readpyall': op_readpyall}
 
 
 def register(name, fn):
